@@ -245,10 +245,10 @@ class TableMachine:
         ops.append(("set_values", [[7, 8], [9, 7]], 0, 0))
         ops.append(("set_values", [[7, 8], [], [9]], 1, 1))
         ops.append(("set_cells", [[(8, 2)], [(9, 1), (7, 2)]], 0, max(H - 1, 0)))
+        ops.append(("extend_rows", [([(7, 1)], 2), ([(8, 3), (9, 2)], 1)]))
         if not mini:
             ops.append(("set_values", [[7, 8, 9, 7]], 0, H))
             ops.append(("set_cells", [[(8, 3), (9, 1)]], 1, 0))
-            ops.append(("extend_rows", [([(7, 1)], 2), ([(8, 3), (9, 2)], 1)]))
             ops.append(("clear",))
         # repeated setters on bound (clone=False) objects
         if H > 0:
